@@ -225,7 +225,8 @@ def ite_cases(cases, default):
     """
     sofar = default
     for c, v in reversed(list(cases)):
-        if is_true(v == sofar):
+        # (floats: 0.0 == -0.0 although they are different values, so only the same expression is skipped)
+        if v is sofar or (not isinstance(v, claripy.ast.FP) and not isinstance(sofar, claripy.ast.FP) and is_true(v == sofar)):
             continue
         sofar = If(c, v, sofar)
     return sofar
